@@ -67,7 +67,7 @@ type Doc = map[string]any
 func GenDoc(t *rapid.T, withItems bool, maxItems int) Doc {
 	d := Doc{
 		"n":    int64(rapid.IntRange(0, 9).Draw(t, "n")),
-		"tag":  rapid.SampledFrom([]string{"t", "x1", "7", "Ab"}).Draw(t, "tag"),
+		"tag":  rapid.SampledFrom([]string{"t", "x1", "7", "Ab", "t", ""}).Draw(t, "tag"), // the empty string is a value like any other
 		"flag": rapid.Bool().Draw(t, "flag"),
 	}
 	if rapid.IntRange(0, 3).Draw(t, "has_m") == 0 {
@@ -491,6 +491,9 @@ func GenProgram(t *rapid.T, prof *Profile, doc Doc) *Program {
 		}
 		if g.pct(30, "out_input") {
 			fields = append(fields, F("in", Ref("input", "n")))
+		}
+		if g.pct(25, "out_input_tag") {
+			fields = append(fields, F("in_tag", Ref("input", "tag")))
 		}
 	}
 	if prof.Tags {
